@@ -186,6 +186,10 @@ def judge_programs(progs, col, n_batches, seed):
             if jd.crashed(parsed):
                 col.feature('batch_crashed')
                 continue
+            if parsed['summary'].get('error', 0) >= 100 or 'only showing the first' in text:
+                # javac prints at most -Xmaxerrs (100) errors: later files' diagnostics are cut off
+                col.feature('batch_truncated_at_maxerrs(not judged)')
+                continue
             for p in batch:
                 col.add_extra('disagreements_checked', 1)
                 inb = bool(errs.get(p['path']))
